@@ -907,7 +907,9 @@ class MessageManager(ClientLike):
         if msg_type == cd.MT_CONNECT or msg_type == cd.MT_CONNECT_V2:
             if self.connect_module(src_module, self.message):
                 self.send_ack(src_module)
-                self.send_client_info(src_module)
+                # the acknowledgement may have failed: a module that was removed is not announced
+                if src_module.conn in self.modules:
+                    self.send_client_info(src_module)
                 if msg_type == cd.MT_CONNECT:
                     self.logger.info(f"CONNECT - {src_module!s}")
                 else:
